@@ -237,7 +237,13 @@ class _Sys:
             try:
                 with open(self.cpath, "rb") as f:
                     entries = pickle.load(f)
-                cache = core.h64(repr([sorted((k, repr(v)) for k, v in vars(e).items() if k not in ("config", "ctime", "mtime")) for e in entries]))
+                # (the selector the entries were generated for travels with them)
+                tag = None
+                if isinstance(entries, tuple) and len(entries) == 2 and isinstance(entries[1], list):
+                    tag, entries = entries
+                elif isinstance(entries, dict) and isinstance(entries.get("entries"), list):
+                    tag, entries = entries.get("for"), entries["entries"]
+                cache = core.h64(repr(tag), repr([sorted((k, repr(v)) for k, v in vars(e).items() if k not in ("config", "ctime", "mtime")) for e in entries]))
             except Exception:  # noqa
                 # not the format this harness knows how to look into: the raw bytes (finer than needed, never coarser)
                 with open(self.cpath, "rb") as f:
